@@ -529,6 +529,40 @@ vx_len_as_u32(instructions
             .len());
 //@end
 
+//@extract file=src/vm/mod.rs path="impl VM|fn enqueue_thread" props=C08,C03,C01 id=VM::enqueue_thread
+//@spec
+        ensures
+            final(self).s_queue() == old(self).s_queue().push(thread),            //@ob C08.vm_state.enqueue_thread.queued_at_the_back_nothing_dropped
+            final(self).s_stored() == old(self).s_stored() && final(self).s_config() == old(self).s_config()
+                && final(self).s_killed() == old(self).s_killed() && final(self).s_errors() == old(self).s_errors()
+                && final(self).s_jump_targets() == old(self).s_jump_targets() && final(self).s_instructions() == old(self).s_instructions()
+                && final(self).s_watchdog() == old(self).s_watchdog() && final(self).s_builder() == old(self).s_builder(),   //@ob C08.vm_state.enqueue_thread.frame
+//@end
+
+//@extract file=src/vm/mod.rs path="impl VM|fn current_thread_killed" props=C08,C01 id=VM::current_thread_killed
+//@ret r
+//@spec
+        ensures r == self.s_killed(),                                             //@ob C08.vm_state.current_thread_killed.reports_the_flag
+//@end
+
+//@extract file=src/vm/mod.rs path="impl VM|fn remaining_thread_count" props=C03,C01 id=VM::remaining_thread_count
+//@ret r
+//@spec
+        ensures r == self.s_queue().len(),                                        //@ob C03.vm_state.remaining_thread_count.is_the_queue_length
+//@end
+
+//@extract file=src/vm/mod.rs path="impl VM|fn is_complete" props=C03,C01 id=VM::is_complete
+//@ret r
+//@spec
+        ensures r == (self.s_queue().len() == 0),                                 //@ob C03.vm_state.is_complete.iff_no_thread_left
+//@end
+
+//@extract file=src/vm/mod.rs path="impl VM|fn stored_states" props=C06,C01 id=VM::stored_states
+//@ret r
+//@spec
+        ensures r@ == self.s_stored(),                                            //@ob C06.vm_state.stored_states.all_of_them
+//@end
+
 //@extract file=src/vm/mod.rs path="impl VM|fn consume" props=C06,C17,C01 id=VM::consume
 //@ret r
 //@spec
